@@ -5,24 +5,22 @@ tools/go2lean from lnwallet/chancloser/chancloser.go `feeInAcceptableRange`, `ra
 lnwallet/commitment.go `CoopCloseBalance`) to the hand-written model `LndModel.C17`.
 -/
 import LndModel.Gen.C17
+import LndModel.Gen.GoIntLemmas
 import LndModel.C17.Model
 
 namespace LndModel.C17.GenRefine
 open LndModel.Gen LndModel.Gen.GoInt
 
-private theorem wrapI64_range (x : Int) : IsI64 (wrapI64 x) := by
-  simp only [IsI64, wrapI64]; omega
-
-private theorem tdiv10_range (z : Int) (h : IsI64 z) : IsI64 (Int.tdiv z 10) := by
+theorem tdiv10_range (z : Int) (h : IsI64 z) : IsI64 (Int.tdiv z 10) := by
   simp only [IsI64] at h ⊢
   by_cases hz : 0 ≤ z
   · rw [Int.tdiv_eq_ediv_of_nonneg hz]; omega
   · have e : Int.tdiv z 10 = -(Int.tdiv (-z) 10) := by rw [Int.neg_tdiv]; omega
     rw [e, Int.tdiv_eq_ediv_of_nonneg (by omega)]; omega
 
-private theorem wrap64_eq (x : Int) : C17.wrap64 x = wrapI64 x := rfl
+theorem wrap64_eq (x : Int) : C17.wrap64 x = wrapI64 x := rfl
 
-private theorem wrap_tdiv10 (y : Int) : wrapI64 (Int.tdiv (wrapI64 y) 10) = Int.tdiv (wrapI64 y) 10 := by
+theorem wrap_tdiv10 (y : Int) : wrapI64 (Int.tdiv (wrapI64 y) 10) = Int.tdiv (wrapI64 y) 10 := by
   have h := tdiv10_range _ (wrapI64_range y)
   simp only [IsI64] at h
   generalize Int.tdiv (wrapI64 y) 10 = q at h ⊢
@@ -55,10 +53,17 @@ example : Gen.C17.feeInAcceptableRange 1000 1300 = true ∧ Gen.C17.feeInAccepta
 /-- `ChannelType.HasAnchors` tests bit 3 (`AnchorOutputsBit = 1 << 3`) of the channel type
     (exact spec; the model takes the predicate as a boolean). -/
 theorem HasAnchors_exact (c : Nat) : Gen.C17.ChannelType_HasAnchors c = c.testBit 3 := by
-  have h : c &&& 2 ^ 3 = (c.testBit 3).toNat * 2 ^ 3 := Nat.and_two_pow_eq c 3
-  have e : andU (c : Int) 8 = ((c &&& 2 ^ 3 : Nat) : Int) := by simp only [andU, Int.toNat_natCast]; rfl
-  simp only [Gen.C17.ChannelType_HasAnchors, e, h]
-  cases c.testBit 3 <;> decide
+  have e : andU (c : Int) 8 = ((c &&& 2 ^ 3 : Nat) : Int) := andU_cast c 8
+  have h := and_two_pow_eq_iff c 3
+  simp only [Gen.C17.ChannelType_HasAnchors, e]
+  by_cases hb : c.testBit 3 = true
+  · have h1 : c &&& 2 ^ 3 = 2 ^ 3 := h.mpr hb
+    rw [h1, hb]; rfl
+  · have h1 : ¬ c &&& 2 ^ 3 = 2 ^ 3 := fun hh => hb (h.mp hh)
+    have h2 : ¬ ((c &&& 2 ^ 3 : Nat) : Int) = 8 := by omega
+    simp only [h2, decide_false]
+    simp only [Bool.not_eq_true] at hb
+    exact hb.symm
 
 theorem AnchorOutputsBit_value : Gen.C17.AnchorOutputsBit = 2 ^ 3 := by decide
 theorem AnchorSize_refines : Gen.C17.AnchorSize = C17.anchorSize := by
@@ -88,13 +93,15 @@ theorem CoopCloseBalance_refines (chanType : Nat) (isInit : Bool) (fee our their
     Gen.C17.CoopCloseBalance chanType isInit fee our their commitFee (payerIsSome payer) (payerVal payer)
       = ofOpt (C17.coopCloseBalance (chanType.testBit 3) isInit fee our their commitFee payer) := by
   simp only [Small] at hf ho ht hc
+  have hw : ∀ x : Int, -9223372036854775808 ≤ x → x < 9223372036854775808 → wrapI64 x = x := wrapI64_id
   simp only [Gen.C17.CoopCloseBalance, C17.coopCloseBalance, C17.initiatorDelta, C17.payerOf,
     C17.anchorSize, HasAnchors_exact]
   cases hA : chanType.testBit 3 <;> cases isInit <;>
     (first | rcases payer with _ | (_ | _)) <;>
     simp only [payerIsSome, payerVal, Gen.C17.Local, Gen.C17.Remote, Option.getD, if_true, if_false,
-      Bool.false_eq_true, reduceCtorEq, Int.reduceEq, Int.add_zero, wrapI64] <;>
-    split <;> split <;>
+      Bool.false_eq_true, reduceCtorEq, Int.reduceEq, Int.add_zero] <;>
+    simp (disch := omega) only [hw] <;>
+    split <;> (try split) <;>
     first
     | rfl
     | (exfalso; omega)
